@@ -4,7 +4,6 @@ import (
 	"fmt"
 	"os"
 	"path/filepath"
-	"runtime"
 	"sort"
 	"time"
 
@@ -18,7 +17,7 @@ import (
 var extraPW = map[string][]byte{
 	"p4": []byte("A"),
 	"p5": []byte("a "),
-	"p6": []byte("a\x00"),
+	"p6": []byte("a\x00b"), // (a trailing NUL would be the SAME scrypt input as "a": HMAC pads keys with zeros)
 	"p7": []byte("пароль"),
 	"p8": []byte{0xff, 0xfe, 0x80, 0x00, 0x01},
 }
@@ -153,7 +152,7 @@ func walletRecord(n, ln, only int) {
 	}
 	root := filepath.Join(os.Getenv("VERIF_OUT"), "wallet-record")
 	seed := vio.Seed()
-	vio.ParMap(n, runtime.NumCPU(), func(t int) {
+	vio.ParMap(n, workers(), func(t int) {
 		if only >= 0 && t != only {
 			return
 		}
